@@ -747,7 +747,7 @@ func c16ErrClass(err error) string {
 }
 
 func newC16World(t *testing.T, out *c16Writer, run int, seed int64, rank map[string]int, kind string) *c16World {
-	w := &c16World{t: t, out: out, run: run, rng: rand.New(rand.NewSource(seed)), rank: rank,
+	w := &c16World{t: t, out: out, run: run, rng: rand.New(rand.NewSource(seed*1000003 + int64(run)*7919)), rank: rank,
 		ephs: map[string]*c16Eph{}, parties: map[string]*c16Party{}, pubs: map[string]crypto.PubKey{},
 		chalN: map[string]c16Chal{}, chalB: map[string][]byte{}, sigB: map[string][]byte{}, exch: map[string][3]string{}}
 	sec := func(tag string) ed25519.PrivKey {
